@@ -214,7 +214,8 @@ def jobs(tier):
             sigma_fixed=(k % 3 == 0),
             log_scale=(k % 4 == 1), bare=(len(c) == 1 and k % 2 == 0)),
             {'max_paths': 64}))
-    for k, c in enumerate(c02.extra_quick()):
+    for k, c in enumerate(c for c in c02.extra_quick()
+                          if not any(u.get('sel') for u in c)):
         out.append(('post', 'case_post', dict(
             units=c, n_samples=2, times=timesets[k % 3],
             sigma_fixed=(k % 2 == 0)), {'max_paths': 64}))
